@@ -24,6 +24,7 @@ RULE = ("one run = a tape-generated terminal set (1-4 terminals, FMMU/direct) wi
         "two paths on the same data, no schedule matters; distinct = distinct (layout, "
         "links, frame contents) digests; non-trivial = at least two linked variables")
 RULE += '; since the 4th session bits are given any truthy value and Struct channels are declared with one, two or three offsets'
+RULE += '; also device objects that were part of another fast group (one more terminal in front) before'
 COMPONENTS = {
     "real": ["ebpfcat.ebpfcat.PacketVar.get/set/_start/fmt_addr", "TerminalVar, DeviceVar",
              "SyncGroupBase.allocate", "FastSyncGroup.program, SterilePacket.activate",
